@@ -74,6 +74,11 @@ func (r *YAMLResource) UnmarshalYAML(value *yaml.Node) error {
 		return fmt.Errorf("metadata or spec node is missing")
 	}
 
+	// a mapping explicitly tagged as null decodes to no spec at all, which cannot be written back
+	if specNode.ShortTag() == "!!null" {
+		return fmt.Errorf("spec is null")
+	}
+
 	var md resource.Metadata
 
 	err := md.UnmarshalYAML(mdNode)
